@@ -376,12 +376,18 @@ def gen_path_group(rng):
     return paths, kind
 
 
-def check_path_api(ctx, paths, kind, fortran, via_views):
+def check_path_api(ctx, paths, kind, fortran, via_views, retrace=None):
+    """`retrace`: the paths were traced before (their `rays` are set) and the problem was changed since then, in place
+    (interface points moved, materials / modes re-assigned on the same Path objects): tracing again must solve the
+    problem as it is *now*, in the order requested *now*"""
     import arim
     from arim import ray
 
-    for p_ in paths:
-        p_.rays = None
+    if retrace is None:
+        for p_ in paths:
+            p_.rays = None
+    else:
+        kind = f"{kind}, re-traced after {retrace}"
     if via_views:
         views = [arim.View(p_, paths[(k + 1) % len(paths)], f"v{k}") for k, p_ in enumerate(paths)]
         ray.ray_tracing(views, convert_to_fortran_order=fortran)
@@ -474,6 +480,25 @@ def run(ctx):
         emit(ctx, check_path_api(ctx, paths, kind, fortran, via_views),
              {"op": "path_api", "kind": kind, "fortran": fortran, "via_views": via_views, "stream_index": k,
               "paths": [[[i.points.coords.tolist() for i in p_.interfaces], [m.key() for m in p_.modes]] for p_ in paths]})
+        # the same Path objects again after the problem changed in place
+        import arim as _arim
+        how = ["points moved in place", "materials re-assigned", "modes re-assigned", "nothing (other array order)"][k % 4]
+        if k % 4 == 0:
+            q = paths[int(rng.integers(0, len(paths)))]
+            tgt = q.interfaces[int(rng.integers(0, len(q.interfaces)))].points
+            tgt.coords[..., 0] += float(rng.uniform(2e-3, 8e-3))
+            tgt.coords[..., 2] -= float(rng.uniform(2e-3, 8e-3))
+        elif k % 4 == 1:
+            q = paths[int(rng.integers(0, len(paths)))]
+            q.materials = tuple(_arim.Material(m.longitudinal_vel * 1.37, None if m.transverse_vel is None else m.transverse_vel * 0.81,
+                                               density=m.density, state_of_matter=m.state_of_matter.name) for m in q.materials)
+        elif k % 4 == 2:
+            q = paths[int(rng.integers(0, len(paths)))]
+            flipped = tuple((_arim.Mode.L if (md is _arim.Mode.T or mt.transverse_vel is None) else _arim.Mode.T) for md, mt in zip(q.modes, q.materials))
+            q.modes = flipped
+        ctx.count("path_api_retrace:" + how)
+        emit(ctx, check_path_api(ctx, paths, kind, not fortran, via_views, retrace=how),
+             {"op": "path_api_retrace", "kind": kind, "how": how, "fortran": not fortran, "via_views": via_views, "stream_index": k})
     ctx.assumptions += [
         "IEEE-754: non-NaN doubles are linearly ordered and x -> fl(x + c) is monotone (transfers solve_optimal to doubles)",
         "velocities finite and positive, coordinates finite (no overflow to inf)",
